@@ -265,6 +265,11 @@ def render_stmt(s, ind):
         if s[1] == "ptr":
             return [pad + "const char *" + s[2] + " = " + render_str(s[3]) + ";"]
         return [pad + "char " + s[2] + "[] = " + render_str(s[3]) + ";"]
+    if k == "svar":                       # ["svar", spelled struct type, name, [[field, type, init]...]]
+        return [pad + s[1] + " " + s[2] + " = {" + ", ".join(rx(i, 2) for _, _, i in s[3]) + "};"]
+    if k == "spdecl":                     # ["spdecl", form, spelled struct type, pointer name, struct var, fields]
+        form = {"": "%s *%s", "pc": "const %s *%s", "pc2": "%s const *%s", "cp": "%s * const %s"}[s[1]]
+        return [pad + form % (s[2], s[3]) + " = &" + s[4] + ";"]
     if k == "expr":
         return [pad + render_expr(s[1]) + ";"]
     if k == "empty":
@@ -318,14 +323,33 @@ def render_stmt(s, ind):
 
 def render_func(f):
     ps = ", ".join(sp + " " + nm for _, sp, nm in f["params"]) or "void"
-    lines = [SPELL[f["ret"]][0] + " " + f["name"] + "(" + ps + ") {"]
+    lines = [f.get("retsp", SPELL[f["ret"]][0]) + " " + f["name"] + "(" + ps + ") {"]
     lines += render_block(f["body"], 1)
     lines.append("}")
     return "\n".join(lines)
 
 
+def render_top(t):
+    k = t[0]
+    if k == "typedef":                    # ["typedef", name, spelled base]
+        return "typedef %s %s;" % (t[2], t[1])
+    if k == "struct":                     # ["struct", form, tag, typedef name, [[type, spelled, field]...]]
+        body = "{\n" + "".join("  %s %s;\n" % (sp, fn) for _, sp, fn in t[4]) + "}"
+        if t[1] == "plain":
+            return "struct %s %s;" % (t[2], body)
+        if t[1] == "typedef-tag":
+            return "typedef struct %s %s %s;" % (t[2], body, t[3])
+        return "typedef struct %s %s;" % (body, t[3])
+    if k == "enum":                       # ["enum", tag, [[name, value, explicit]...]]
+        return "enum %s { %s };" % (t[1], ", ".join(n + (" = %d" % v if ex else "") for n, v, ex in t[2]))
+    if k == "gvar":                       # ["gvar", qual, type, spelled, name, init expr]
+        return "%s %s %s = %s;" % (t[1], t[3], t[4], rx(t[5], 2))
+    raise Invalid("top " + k)
+
+
 def render_program(d):
-    return "\n".join(render_func(f) for f in d["helpers"] + [d["main"]]) + "\n"
+    tops = [render_top(t) for t in d.get("tops", [])]
+    return "\n".join(tops + [render_func(f) for f in d["helpers"] + [d["main"]]]) + "\n"
 
 
 # ------------------------------------------------------------------------------------------------
@@ -358,11 +382,13 @@ class Interp:
     def __init__(self, funcs):
         self.funcs = funcs          # name -> func descriptor
         self.scopes = [{}]
+        self.globals = {}
         self.steps = 0
         self.depth = 0
 
     def __deepcopy__(self, memo):
         c = Interp(self.funcs)
+        c.globals = self.globals
         c.scopes = copy.deepcopy(self.scopes, memo)
         c.steps, c.depth = self.steps, self.depth
         return c
@@ -372,6 +398,8 @@ class Interp:
         for sc in reversed(self.scopes):
             if name in sc:
                 return sc[name]
+        if name in self.globals:
+            return self.globals[name]
         raise Invalid("unknown variable " + name)
 
     def declare(self, name, obj):
@@ -717,6 +745,22 @@ class Interp:
         elif k == "sdecl":
             vals = [p[1] for p in s[3]] + [0]
             self.declare(s[2], Obj("char", vals, scalar=False, const=True))
+        elif k == "svar":
+            for fn, ft, init in s[3]:
+                tv, v = self.ev(init)
+                if promote(tv) != ft and not (init[0] == "lit" and ft == "double" and tv == "int"):
+                    raise Invalid("narrowing in a braced initialiser")
+                self.declare(s[2] + "." + fn, Obj(ft, [conv(v, promote(tv) if tv != ft else tv, ft)]))
+        elif k == "spdecl":
+            for fn in s[5]:
+                o = self.lookup(s[4] + "." + fn)
+                if s[1] in ("pc", "pc2"):
+                    o2 = Obj(o.t, o.vals, const=True)      # same storage, read-only view
+                    self.declare(s[3] + "->" + fn, o2)
+                    self.declare("(*" + s[3] + ")." + fn, o2)
+                else:
+                    self.declare(s[3] + "->" + fn, o)
+                    self.declare("(*" + s[3] + ")." + fn, o)
         elif k == "expr":
             self.ev(s[1])
         elif k == "empty":
@@ -808,11 +852,23 @@ def run_program(d, args):
     """-> final return value of main for one argument tuple (raises Undefined/Invalid)"""
     funcs = {f["name"]: f for f in d["helpers"] + [d["main"]]}
     it = Interp(funcs)
+    it.globals = eval_globals(d, funcs)
     m = d["main"]
     vals = []
     for (pt, _, _), v in zip(m["params"], args):
         vals.append(float(v) if pt == "double" else v)
     return it.call(m, vals)
+
+
+def eval_globals(d, funcs):
+    g = {}
+    it = Interp(funcs)
+    for t in d.get("tops", []):
+        if t[0] == "gvar":
+            tv, v = it.ev(t[5])
+            g[t[4]] = Obj(t[2], [conv(v, promote(tv) if tv != t[2] else tv, t[2])], const=True)
+            it.globals = g
+    return g
 
 
 def check_program(d):
@@ -846,6 +902,8 @@ class Gen:
         self.reads = set()
         self.locked = set()
         self.no_embed = 0
+        self.spell = {t: list(v) for t, v in SPELL.items()}
+        self.structs = []
 
     # -- helpers for the random source
     def p(self, x):
@@ -951,6 +1009,9 @@ class Gen:
             elif c < 0.60:
                 if want == "dbl" or (want == "num" and self.p(0.3)):
                     return self.dbl_lit()
+                if getattr(self, "enums", None) and self.p(0.25):
+                    en = self.pick(self.enums)
+                    return ["lit", en[0], "int", en[1]]
                 return self.int_lit(0, 12)
             elif c < 0.66:
                 if want != "dbl":
@@ -1103,7 +1164,7 @@ class Gen:
             self.feat.add("cast")
             t = self.pick(["int", "long", "uint", "int", "long"])
             inner = self.expr(scope, "num" if t != "uint" else "int", depth - 1)
-            e = ["cast", t, self.pick(SPELL[t]), inner]
+            e = ["cast", t, self.pick(self.spell[t]), inner]
         elif c < 0.96 and self.no_embed == 0:
             e = self.embedded_side_effect(scope, depth - 1)
         else:
@@ -1168,7 +1229,7 @@ class Gen:
         if n > 1:
             self.feat.add("decl:multi")
         new = [{"name": nm, "kind": "scalar", "t": t, "const": bool(qual)} for nm, _ in items]
-        return ["decl", qual, t, self.pick(SPELL[t]), items], new
+        return ["decl", qual, t, self.pick(self.spell[t]), items], new
 
     def arr_stmt(self, scope):
         t = self.pick(["int", "int", "long", "double", "uint"])
@@ -1185,7 +1246,7 @@ class Gen:
         nm = self.fresh("arr")
         qual = "const" if self.p(0.15) else ""
         self.feat.add("decl:array")
-        return ["arr", qual, t, self.pick(SPELL[t]), nm, n, sized, inits], \
+        return ["arr", qual, t, self.pick(self.spell[t]), nm, n, sized, inits], \
                [{"name": nm, "kind": "arr", "t": t, "n": n, "const": bool(qual)}]
 
     def typed_int(self, scope, t):
@@ -1229,7 +1290,7 @@ class Gen:
             forms = ["pc2"]
         form = self.pick(forms)
         self.feat.add("decl:pointer" + ("-const" if form else ""))
-        return ["pdecl", form, t, self.pick(SPELL[t]), nm, tg], \
+        return ["pdecl", form, t, self.pick(self.spell[t]), nm, tg], \
                [{"name": nm, "kind": "ptr", "t": t, "n": n, "const": form in ("pc", "cpc", "pc2"), "alias": tg[1]}]
 
     def str_stmt(self, scope):
@@ -1344,6 +1405,18 @@ class Gen:
             s, new = self.ptr_stmt(scope)
             return (s, new) if s is not None else self.decl_stmt(scope)
         if c < 0.53:
+            if self.structs and self.p(0.6):
+                if self.p(0.45):
+                    s2, new = self.spdecl_stmt(scope)
+                    if s2 is not None:
+                        return s2, new
+                return self.svar_stmt(scope)
+            if getattr(self, "enums", None) and self.p(0.4):
+                nm = self.fresh("e")
+                en = self.pick(self.enums)
+                self.feat.add("enum-var")
+                return ["decl", "", "int", "enum E0", [[nm, ["lit", en[0], "int", en[1]]]]], \
+                       [{"name": nm, "kind": "scalar", "t": "int", "const": True}]
             return self.str_stmt(scope)
         if c < 0.55:
             if in_loop and self.p(0.6):
@@ -1398,7 +1471,7 @@ class Gen:
         c = self.r.random()
         it = self.pick(["int", "int", "long", "uint"])
         iv = {"name": i, "kind": "scalar", "t": it, "const": True}      # const: the body must not assign it
-        sp = self.pick(SPELL[it])
+        sp = self.pick(self.spell[it])
         lit = lambda v: self.int_lit(v, v, "int")
         var = ["var", i]
         if c < 0.4:
@@ -1483,7 +1556,7 @@ class Gen:
                 ls.insert(self.r.randint(0, len(ls)), "default")
             stmts = self.body(scope, depth - 1, in_loop, True, nmax=2)
             # declarations directly under a case label would be jumped over: wrap them
-            if any(s[0] in ("decl", "arr", "pdecl", "sdecl") for s in stmts):
+            if any(s[0] in ("decl", "arr", "pdecl", "sdecl", "svar", "spdecl") for s in stmts):
                 stmts = [["block", stmts]]
             if self.p(0.7):
                 stmts.append(["break"])
@@ -1492,11 +1565,94 @@ class Gen:
             groups.append([ls, stmts])
         if not any("default" in gl for gl, _ in groups) and self.p(0.5):
             stmts = self.body(scope, depth - 1, in_loop, True, nmax=1)
-            if any(s[0] in ("decl", "arr", "pdecl", "sdecl") for s in stmts):
+            if any(s[0] in ("decl", "arr", "pdecl", "sdecl", "svar", "spdecl") for s in stmts):
                 stmts = [["block", stmts]]
             groups.append([["default"], stmts])
             self.feat.add("switch:default")
         return ["switch", sel, groups]
+
+    # -- top-level declarations: typedefs, a struct, an enum, global constants
+    def gen_tops(self):
+        r = self.r
+        tops = []
+        self.enums = []
+        for i in range(r.randint(0, 2)):
+            t = self.pick(["int", "long", "uint", "double", "ulong"])
+            base = self.pick(self.spell[t])
+            if base.startswith("T") and "typedef-chain" in self.avoid:
+                base = SPELL[t][0]
+            name = "T%d" % i
+            tops.append(["typedef", name, base])
+            self.feat.add("typedef-chain" if base.startswith("T") else "typedef")
+            self.spell[t].append(name)
+        if self.p(0.4) and "struct" not in self.avoid:
+            fields = []
+            for j in range(r.randint(1, 3)):
+                t = self.pick(["int", "long", "double", "uint", "int"])
+                fields.append([t, self.pick(self.spell[t]), "m%d" % j])
+            form = self.pick(["plain", "plain", "typedef-tag", "typedef-anon"])
+            tops.append(["struct", form, "S0", "TS0", fields])
+            spell = {"plain": ["struct S0"], "typedef-tag": ["struct S0", "TS0"], "typedef-anon": ["TS0"]}[form]
+            self.feat.add("struct:" + form)
+            if form == "plain" and self.p(0.4) and "typedef-struct-ref" not in self.avoid:
+                tops.append(["typedef", "TS1", "struct S0"])
+                spell.append("TS1")
+                self.feat.add("typedef-struct-ref")
+            self.structs.append({"spell": spell, "fields": fields})
+        if self.p(0.3) and "enum" not in self.avoid:
+            items, v = [], 0
+            for j in range(r.randint(2, 4)):
+                ex = self.p(0.4)
+                if ex:
+                    v += r.randint(0, 3)
+                items.append(["E0%s" % "ABCD"[j], v, ex])
+                v += 1
+            tops.append(["enum", "E0", items])
+            self.enums = [(n, v) for n, v, _ in items]
+            self.feat.add("enum")
+        for i in range(r.randint(0, 2) if self.p(0.5) else 0):
+            t = self.pick(["int", "long", "double", "uint"])
+            self.no_embed += 10
+            try:
+                init = self.full(self.expr, [], "dbl" if t == "double" else "int", 1)
+            finally:
+                self.no_embed -= 10
+            tops.append(["gvar", self.pick(["const", "static const"]), t, self.pick(self.spell[t]), "g%d" % i, init])
+            self.feat.add("global-const")
+        return tops
+
+    def svar_stmt(self, scope):
+        st = self.pick(self.structs)
+        nm = self.fresh("q")
+        inits, new = [], []
+        for ft, _, fn in st["fields"]:
+            self.reads, self.locked = set(), set()
+            init = self.expr(scope, "dbl", 1) if ft == "double" else self.typed_int(scope, ft)
+            inits.append([fn, ft, init])
+            new.append({"name": nm + "." + fn, "kind": "scalar", "t": ft, "const": False, "noembed": True})
+        new.append({"name": nm, "kind": "structvar", "t": None, "const": False, "struct": st})
+        self.feat.add("struct-var")
+        return ["svar", self.pick(st["spell"]), nm, inits], new
+
+    def spdecl_stmt(self, scope):
+        svs = [v for v in scope if v["kind"] == "structvar"]
+        if not svs:
+            return None, []
+        sv = self.pick(svs)
+        st = sv["struct"]
+        nm = self.fresh("ps")
+        forms = ["", "", "pc", "cp"]
+        if "ptr-post-const" not in self.avoid:
+            forms.append("pc2")
+        form = self.pick(forms)
+        new = []
+        for ft, _, fn in st["fields"]:
+            for nme in (nm + "->" + fn, "(*" + nm + ")." + fn):
+                new.append({"name": nme, "kind": "scalar", "t": ft, "const": form in ("pc", "pc2"), "noembed": True})
+        self.feat.add("struct-pointer" + ("-const" if form in ("pc", "pc2") else ""))
+        if form == "pc2":
+            self.feat.add("struct-post-const")
+        return ["spdecl", form, self.pick(st["spell"]), nm, sv["name"], [f[2] for f in st["fields"]]], new
 
     # -- helper functions
     def helper(self, idx):
@@ -1507,7 +1663,7 @@ class Gen:
         for i in range(nparams):
             t = self.pick(["int", "long", "double", "uint"]) if ret == "double" else self.pick(["int", "long", "uint", "int"])
             pn = "x%d" % i
-            params.append([t, self.pick(SPELL[t]), pn])
+            params.append([t, self.pick(self.spell[t]), pn])
             scope.append({"name": pn, "kind": "scalar", "t": t, "const": False, "noembed": True})
         self.no_embed += 10
         try:
@@ -1566,12 +1722,14 @@ def program(r, avoid=(), nstmts=(4, 9)):
     g = Gen(r, avoid)
     d = {"helpers": [copy.deepcopy(H_FOLD)], "calls": []}
     g.helpers = [d["helpers"][0]]
+    d["tops"] = g.gen_tops() if "tops" not in g.avoid else []
+    gscope = [{"name": t[4], "kind": "scalar", "t": t[2], "const": True, "noembed": True} for t in d["tops"] if t[0] == "gvar"]
     # parameters
     np_ = r.randint(2, 4)
     types = [g.pick(["int", "long", "uint", "double"]) for _ in range(np_)]
     if "int" not in types and "long" not in types:
         types[0] = "int"
-    params = [[t, g.pick(SPELL[t]), PARAM_NAMES[i]] for i, t in enumerate(types)]
+    params = [[t, g.pick(g.spell[t]), PARAM_NAMES[i]] for i, t in enumerate(types)]
     main = {"name": "f", "ret": "long", "params": params, "body": []}
     d["main"] = main
     d["calls"] = [gen_args(g, params) for _ in range(3)]
@@ -1594,12 +1752,19 @@ def program(r, avoid=(), nstmts=(4, 9)):
             d["helpers"].append(h)
             g.helpers.append(h)
     funcs = {f["name"]: f for f in d["helpers"] + [main]}
-    scope = [{"name": nm, "kind": "scalar", "t": t, "const": False} for t, _, nm in params]
+    scope = gscope + [{"name": nm, "kind": "scalar", "t": t, "const": False} for t, _, nm in params]
     scope.append({"name": "r", "kind": "scalar", "t": "long", "const": False, "noembed": True})
+    try:
+        glob = eval_globals(d, funcs)
+    except (Undefined, Invalid):
+        d["tops"] = [t for t in d["tops"] if t[0] != "gvar"]
+        scope = [v for v in scope if v not in gscope]
+        glob = {}
     # live interpreter states, one per call
     states = []
     for call in d["calls"]:
         it = Interp(funcs)
+        it.globals = glob
         for (pt, _, nm), v in zip(params, call):
             it.declare(nm, Obj(pt, [float(v) if pt == "double" else v]))
         states.append({"it": it, "done": False, "ret": None})
@@ -1624,7 +1789,7 @@ def program(r, avoid=(), nstmts=(4, 9)):
             break
     # final fold of the scalar locals, then return
     for v in scope:
-        if v["kind"] == "scalar" and v["name"] not in ("r",) and r.random() < 0.5:
+        if v["kind"] == "scalar" and v["name"] not in ("r",) and v not in gscope and r.random() < 0.5:
             if v["t"] == "double":
                 inner = ["call", "h_fold", [["var", v["name"]]]]
             else:
@@ -1668,63 +1833,83 @@ def _is_expr(n):
     return True
 
 
+def is_scaffold(e):
+    """r = (r * 7 + E) % M : the fixed accumulator statement; only E is generated"""
+    try:
+        return (e[0] == "asg" and e[1] == "=" and e[2] == ["var", "r"] and e[3][0] == "bin" and e[3][1] == "%" and
+                e[3][2][0] == "par" and e[3][2][1][0] == "bin" and e[3][2][1][1] == "+" and
+                e[3][2][1][2] == ["bin", "*", ["var", "r"], ["lit", "7", "int", 7]])
+    except (IndexError, TypeError):
+        return False
+
+
+OPK = ("bin", "ter", "asg", "un", "cast", "pre", "post", "comma")
+
+
 def classify(d):
-    """-> (set of class names, nontrivial flag)"""
+    """-> (set of class names, nontrivial flag).  The accumulator scaffold is not counted."""
     cls = set(d.get("feat", []))
     flags = {"mixed": False, "escape": False, "cast": False}
-
-    def opprec(e):
-        return prec(e) if e[0] in ("bin", "ter", "asg", "un", "cast", "pre", "post", "comma") else None
 
     def visit(e):
         k = e[0]
         if k == "cast":
             flags["cast"] = True
-            cls.add("cast")
         if k == "chr" and e[1].startswith("\\"):
             flags["escape"] = True
-        if k in ("stridx", "str"):
-            if any(p[0].startswith("\\") for p in e[1]):
-                flags["escape"] = True
-        if k == "bin":
+        if k in ("stridx", "str") and any(p[0].startswith("\\") for p in e[1]):
+            flags["escape"] = True
+        if k in ("bin", "asg"):
             cls.add("op:" + e[1])
-        if k == "asg":
-            cls.add("op:" + e[1])
-        if k == "un":
+        elif k == "un":
             cls.add("op:unary" + e[1])
-        if k == "ter":
+        elif k == "ter":
             cls.add("op:?:")
-        # two operators of different precedence without parentheses between them
-        pp = opprec(e)
-        if pp is not None:
+        elif k in ("pre", "post"):
+            cls.add("op:" + k + e[1])
+        elif k == "comma":
+            cls.add("op:,")
+        if k in OPK:
+            pp = prec(e)
             kids = [c for c in e[1:] if isinstance(c, list) and c and isinstance(c[0], str) and c[0] in EXPR_KINDS]
             for c in kids:
-                cp = opprec(c)
-                if cp is not None and cp != pp and cp >= pp and not (k in ("un", "cast", "pre", "post") and False):
-                    # rendered without parentheses exactly when the child binds at least as tightly
-                    if cp > pp:
-                        flags["mixed"] = True
-                        if k == "bin" and c[0] == "un":
-                            cls.add("unary-after-binary")
-                        if k == "bin" and c[0] == "bin":
-                            cls.add("mixed-precedence-binary")
-                elif cp is not None and cp < pp:
+                if c[0] not in OPK:
+                    continue
+                cp = prec(c)
+                if cp > pp:
+                    # rendered without parentheses: two operators of different precedence next to each other
+                    flags["mixed"] = True
+                    if k == "bin" and c[0] == "un":
+                        cls.add("unary-after-binary")
+                    elif k == "bin" and c[0] == "bin":
+                        cls.add("mixed-precedence-binary")
+                    elif k == "bin" and c[0] == "cast":
+                        cls.add("cast-in-binary")
+                elif cp < pp:
                     cls.add("needed-parens")
-                elif cp is not None and cp == pp and k == "bin" and c is e[3]:
+                elif k == "bin" and c is e[3]:
                     cls.add("needed-parens-assoc")
 
-    for f in d["helpers"] + [d["main"]]:
-        walk_exprs(f, visit)
+    def rec(node):
+        if isinstance(node, dict):
+            for s in node["body"]:
+                rec(s)
+            return
+        if not isinstance(node, list) or not node:
+            return
+        if isinstance(node[0], str) and node[0] in EXPR_KINDS:
+            if is_scaffold(node):
+                rec(node[3][2][1][3])
+                return
+            visit(node)
+        if isinstance(node[0], str) and node[0] == "sdecl" and any(p[0].startswith("\\") for p in node[3]):
+            flags["escape"] = True
+        for c in node:
+            if isinstance(c, list):
+                rec(c)
 
-    def stmts(node):
-        if isinstance(node, list):
-            if node and isinstance(node[0], str) and node[0] == "sdecl":
-                if any(p[0].startswith("\\") for p in node[3]):
-                    flags["escape"] = True
-            for c in node:
-                stmts(c)
-    for f in d["helpers"] + [d["main"]]:
-        stmts(f["body"])
+    for f in d["helpers"][1:] + [d["main"]]:
+        rec(f)
     if flags["mixed"]:
         cls.add("NT:mixed-precedence")
     if flags["escape"]:
